@@ -145,6 +145,11 @@ func (x *Exec) checkInvs(st *State, li *LoopInfo, kind string, at ast.Node) {
 	if li == nil {
 		return
 	}
+	if kind == "inv-init" {
+		// entry(e) at loop entry is e itself
+		x.loopEntry = append(x.loopEntry, st.clone())
+		defer func() { x.loopEntry = x.loopEntry[:len(x.loopEntry)-1] }()
+	}
 	for _, inv := range li.Invariants {
 		g := x.evalSpec(st, inv.Expr)
 		x.oblige(st, kind, fmt.Sprintf("loop%d.%s", li.Ordinal, inv.Label), g, at)
@@ -195,6 +200,8 @@ func (x *Exec) execFor(st *State, s *ast.ForStmt, label string) *State {
 	li := x.loopInfo(s)
 	x.checkInvs(st, li, "inv-init", s)
 	n := len(st.pc)
+	x.loopEntry = append(x.loopEntry, st.clone())
+	defer func() { x.loopEntry = x.loopEntry[:len(x.loopEntry)-1] }()
 	x.havocLoop(st, s.Body, s.Post, s.Cond)
 	x.assumeInvs(st, li)
 	var exit *State
@@ -233,6 +240,8 @@ func (x *Exec) execFor(st *State, s *ast.ForStmt, label string) *State {
 
 func (x *Exec) execRange(st *State, s *ast.RangeStmt, label string) *State {
 	li := x.loopInfo(s)
+	x.loopEntry = append(x.loopEntry, st.clone())
+	defer func() { x.loopEntry = x.loopEntry[:len(x.loopEntry)-1] }()
 	xt := x.typeOf(s.X)
 	var keyV, valV *types.Var
 	bindVar := func(e ast.Expr) *types.Var {
@@ -294,10 +303,13 @@ func (x *Exec) execRange(st *State, s *ast.RangeStmt, label string) *State {
 		}
 		idx := IntLit(0)
 		setVar(st, keyV, idx)
+		x.rangeIdx = append(x.rangeIdx, idx)
+		defer func() { x.rangeIdx = x.rangeIdx[:len(x.rangeIdx)-1] }()
 		x.checkInvs(st, li, "inv-init", s)
 		n := len(st.pc)
 		x.havocLoop(st, s.Body)
 		idx = x.fresh("idx", SInt)
+		x.rangeIdx[len(x.rangeIdx)-1] = idx
 		st.assume(And(Le(IntLit(0), idx), Le(idx, ln)))
 		setVar(st, keyV, idx)
 		if valV != nil && !x.boxed[valV] {
@@ -319,7 +331,9 @@ func (x *Exec) execRange(st *State, s *ast.RangeStmt, label string) *State {
 		back := x.merge(nb, append([]*State{end}, lc.continues...))
 		if back != nil {
 			setVar(back, keyV, Add(idx, IntLit(1)))
+			x.rangeIdx[len(x.rangeIdx)-1] = Add(idx, IntLit(1))
 			x.checkInvs(back, li, "inv-keep", s)
+			x.rangeIdx[len(x.rangeIdx)-1] = idx
 		}
 		if keyV != nil && s.Tok == token.DEFINE {
 			delete(exit.vars, keyV)
